@@ -404,19 +404,34 @@ Definition rstep (s : rstate) (tid : nat) : rres :=
               else done1 s tid t RX
           | IBlockOn a v w =>
               (* poll: ready if the awaited value can be read; otherwise register the waker
-                 with the AtomicWaker and wait *)
+                 with the AtomicWaker, look again, and wait. The AtomicWaker's lock orders the
+                 registration after every earlier wake() / take_waker(): in weak mode the task
+                 acquires what those had released (kept in ro_readers of the AtomicWaker as a
+                 set of atomics whose initial value is no longer readable). *)
               let o := robj_get s a in
+              let ow := robj_get s w in
+              let t1 := rt_with_views t (nunion (ro_readers ow) (r_noinit t)) (r_wakeview t) in
               let can_ready := existsb (N.eqb v) (reads_of (rs_weak s) t o a) in
               let can_pending := existsb (fun x => negb (N.eqb x v)) (reads_of (rs_weak s) t o a) in
+              let can_ready2 := existsb (N.eqb v) (reads_of (rs_weak s) t1 o a) in
+              let can_pending2 := existsb (fun x => negb (N.eqb x v)) (reads_of (rs_weak s) t1 o a) in
+              let registered := set_obj s w (ro_with_owner ow (Some tid)) in
               let ready := if can_ready then [set_th s tid (rt_advance t RUnit)] else [] in
               let pending :=
-                if can_pending
-                then [set_th (set_obj s w (ro_with_owner (robj_get s w) (Some tid))) tid
-                             (rt_with_status t RBoWait)]
+                if can_pending && can_pending2
+                then [set_th registered tid (rt_with_status t1 RBoWait)]
                 else [] in
-              RNext (ready ++ pending)
+              (* the second look succeeds: Ready, but the waker stays registered (weak mode: the two
+                 looks may read different stores; with SC atomics the poll is one step) *)
+              let late_ready :=
+                if rs_weak s && can_pending && can_ready2
+                then [set_th registered tid (rt_advance t1 RUnit)]
+                else [] in
+              RNext (ready ++ pending ++ late_ready)
           | IWake w =>
               let ow := robj_get s w in
+              let ow := if rs_weak s then ro_with_readers ow (nunion (r_noinit t) (ro_readers ow)) else ow in
+              let s := set_obj s w ow in
               match ro_owner ow with
               | Some wt =>
                   let s := set_obj s w (ro_with_owner ow None) in
@@ -428,6 +443,8 @@ Definition rstep (s : rstate) (tid : nat) : rres :=
               end
           | ITakeWaker w =>
               let ow := robj_get s w in
+              let ow := if rs_weak s then ro_with_readers ow (nunion (r_noinit t) (ro_readers ow)) else ow in
+              let s := set_obj s w ow in
               match ro_owner ow with
               | Some _ => done1 (set_obj s w (ro_with_owner ow None)) tid t (RVal 1)
               | None => done1 s tid t (RVal 0)
